@@ -38,7 +38,9 @@ EXC = {'ValueError': '.py .valueError', 'TypeError': '.py .typeError', 'IndexErr
 ANN = {'int': 'int', 'str': 'str', 'bool': 'bool'}
 LEAN_T = {'int': 'Int', 'str': 'Str', 'bool': 'Bool', 'optpoint': 'Option Point', 'obj': 'AStr',
           'slist': 'List Setting', 'setting': 'Setting', 'point': 'Point', 'optslist': 'Option (List Setting)',
-          'pairs': 'List (Nat × Nat)', 'fmtitems': 'Fmts'}
+          'pairs': 'List (Nat × Nat)', 'fmtitems': 'Fmts', 'optint': 'Option Int', 'optstr': 'Option Str', 'char': 'Char'}
+OPT_OF = {'int': 'optint', 'str': 'optstr', 'slist': 'optslist'}
+BASE_OF = {v: k for k, v in OPT_OF.items()}
 
 
 class Sig:
@@ -55,7 +57,12 @@ class Sig:
             t = ast.unparse(x.annotation) if x.annotation is not None else None
             if t not in ANN:
                 raise Unsupported('parameter type %s' % t)
-            self.params.append((x.arg, ANN[t], d))
+            ty = ANN[t]
+            if isinstance(d, ast.Constant) and d.value is None:
+                if ty not in OPT_OF:
+                    raise Unsupported('parameter %s defaults to None' % x.arg)
+                ty = OPT_OF[ty]
+            self.params.append((x.arg, ty, d))
 
 
 class M:
@@ -104,6 +111,8 @@ class M:
                     return 'optslist'
                 if isinstance(v, ast.Call) and isinstance(v.func, ast.Attribute) and v.func.attr == 'pop':
                     return 'optpoint'
+                if isinstance(v, ast.Constant) and isinstance(v.value, int) and not isinstance(v.value, bool):
+                    return 'optint'
         return 'optpoint'
 
     # -- expressions ------------------------------------------------------------------------------
@@ -130,6 +139,8 @@ class M:
             if e.value is None:
                 return '(none : Option Point)', 'optpoint'
             raise Unsupported('constant %r' % (e.value,))
+        if isinstance(e, ast.Name) and e.id == 'WHITESPACE_CHARS' and e.id not in env:
+            return 'whitespaceChars', 'str'                      # the module constant, regenerated in Tables.lean
         if isinstance(e, ast.Name):
             if e.id not in env:
                 raise Unsupported('name ' + e.id)
@@ -277,6 +288,11 @@ class M:
                 if f.attr == '_same_setting_references':
                     return '(sameSettingReferences %s %s)' % (a, b_), 'bool'
                 return '(findSettingsReferences %s %s)' % (a, b_), 'pairs'
+            if isinstance(f, ast.Attribute) and f.attr in ('startswith', 'endswith') and len(e.args) == 1:
+                a, ta = self.ex(f.value, env)
+                if ta == 'str':
+                    b_ = self.typed(e.args[0], env, 'str')
+                    return '(Py.%s %s %s)' % ('startsWith' if f.attr == 'startswith' else 'endsWith', a, b_), 'bool'
             if isinstance(f, ast.Attribute) and f.attr == 'ansi_settings_at' and len(e.args) == 1:
                 o = self.obj_of(f.value, env)
                 if o:
@@ -304,6 +320,10 @@ class M:
                 raise Unsupported(ast.unparse(e))
             if isinstance(o, (ast.In, ast.NotIn)) and not self.is_fmts(r, env):
                 a, ta = self.ex(l, env)
+                if ta == 'char':
+                    L = self.typed(r, env, 'str')
+                    s_ = '(%s.contains %s)' % (L, a)
+                    return (s_ if isinstance(o, ast.In) else '(!%s)' % s_), 'bool'
                 if ta == 'setting':
                     L = self.typed(r, env, 'slist')
                     s_ = '(hasTxt %s %s.txt)' % (L, a)          # AnsiSetting.__eq__ compares the text
@@ -314,7 +334,7 @@ class M:
                     l, r = r, l
                 if isinstance(r, ast.Constant) and r.value is None:
                     a, t = self.ex(l, env)
-                    if t in ('optpoint', 'optslist'):
+                    if t in ('optpoint', 'optslist', 'optint', 'optstr'):
                         return ('(%s).isNone' if isinstance(o, ast.Is) else '(%s).isSome') % a, 'bool'
                 raise Unsupported(ast.unparse(e))
             (a, ta), (b_, tb) = self.ex(l, env), self.ex(r, env)
@@ -323,6 +343,8 @@ class M:
                 return '(decide (%s %s %s))' % (a, ops[type(o)], b_), 'bool'
             if isinstance(o, (ast.Eq, ast.NotEq)) and ta == tb and ta in ('str', 'bool'):
                 return '(%s %s %s)' % (a, '==' if isinstance(o, ast.Eq) else '!=', b_), 'bool'
+            if isinstance(o, (ast.Eq, ast.NotEq)) and (ta, tb) == ('optint', 'int'):
+                return '(%s %s some %s)' % (a, '==' if isinstance(o, ast.Eq) else '!=', b_), 'bool'
             if isinstance(o, (ast.Eq, ast.NotEq)) and ta == tb == 'slist':
                 # list equality is element-wise `==`, and AnsiSetting.__eq__ compares the text
                 return '(texts %s %s texts %s)' % (a, '==' if isinstance(o, ast.Eq) else '!=', b_), 'bool'
@@ -334,6 +356,8 @@ class M:
             return '(!(%s).isEmpty)' % a
         if t == 'optslist':
             return '(Py.truthyOptList %s)' % a
+        if t == 'char':
+            raise Unsupported('truth value of a character')
         if t == 'pairs':
             return '(!(%s).isEmpty)' % a
         if t == 'point':
@@ -344,8 +368,8 @@ class M:
 
     def typed(self, e, env, want):
         a, t = self.ex(e, env)
-        if want == 'slist' and t == 'optslist':
-            return self.hoist('Py.optGet %s' % a)          # a list is needed: `None` here is outside the model
+        if OPT_OF.get(want) == t:
+            return self.hoist('Py.optGet %s' % a)          # a value is needed: `None` here is outside the model
         if t != want:
             raise Unsupported('%s expected: %s' % (want, ast.unparse(e)))
         return a
@@ -380,6 +404,15 @@ class M:
             o = self.obj_of(st.value, env)
             if o:
                 return p + '.ok %s' % o
+            if isinstance(st.value, ast.Call) and isinstance(st.value.func, ast.Attribute) and st.value.func.attr == 'copy' \
+                    and not st.value.args and not st.value.keywords and self.obj_of(st.value.func.value, env):
+                return p + '.ok %s' % self.obj_of(st.value.func.value, env)        # a copy: the same value
+            if isinstance(st.value, ast.Call) and isinstance(st.value.func, ast.Attribute) and st.value.func.attr in self.sigs \
+                    and not getattr(self.sigs[st.value.func.attr], 'point', False) and self.obj_of(st.value.func.value, env):
+                o = self.obj_of(st.value.func.value, env)
+                args = self.bind(st.value, self.sigs[st.value.func.attr], env)
+                pre = self.pre(p)
+                return '%s%s(%s %s %s)' % (pre, p, lean_name(st.value.func.attr), o, ' '.join(args))
             if getattr(self, 'ret', None) == 'slist' and isinstance(st.value, ast.Tuple) and st.value.elts:
                 a, ty = self.ex(st.value.elts[-1], env)       # (idx, settings, self.current_settings): the state handed on
                 if ty == 'slist':
@@ -474,6 +507,16 @@ class M:
                         raise Unsupported('assignment to self')
                     env = dict(env); env[t.id] = 'obj'
                     return '%slet %s : AStr := %s\n%s' % (p, mangle(t.id), src, K(env, ind))
+                # obj = self[a:b]
+                if isinstance(v, ast.Subscript) and isinstance(v.slice, ast.Slice) and v.slice.step is None and self.obj_of(v.value, env):
+                    o = self.obj_of(v.value, env)
+                    lo = '(none : Option Int)' if v.slice.lower is None else self.as_opt(v.slice.lower, env, 'optint')
+                    hi = '(none : Option Int)' if v.slice.upper is None else self.as_opt(v.slice.upper, env, 'optint')
+                    pre = self.pre(p)
+                    if t.id == 'self' or (t.id in env and env[t.id] != 'obj'):
+                        raise Unsupported(ast.unparse(st))
+                    env = dict(env); env[t.id] = 'obj'
+                    return '%s%slet %s : AStr := AStr.getSlice %s %s %s\n%s' % (pre, p, mangle(t.id), o, lo, hi, K(env, ind))
                 # x = O._fmts.pop(k, None)
                 if isinstance(v, ast.Call) and isinstance(v.func, ast.Attribute) and v.func.attr == 'pop' and len(v.args) == 2 \
                         and not v.keywords and isinstance(v.args[1], ast.Constant) and v.args[1].value is None:
@@ -496,13 +539,18 @@ class M:
                 else:
                     a, ty = self.ex(v, env)
                     want = env.get(t.id) or (self.none_type(t.id) if self.assigned_none(t.id) else None)
-                    if want == 'optslist' and ty == 'slist':
-                        a, ty = '(some %s)' % a, 'optslist'
+                    if want in BASE_OF and BASE_OF[want] == ty:
+                        a, ty = '(some %s)' % a, want
                 pre = self.pre(p)
                 if t.id in env and env[t.id] != ty:
                     raise Unsupported('type of %s changes' % t.id)
                 env = dict(env); env[t.id] = ty
                 return '%s%slet %s : %s := %s\n%s' % (pre, p, mangle(t.id), LEAN_T[ty], a, K(env, ind))
+            # O._fmts = P._fmts
+            if isinstance(t, ast.Attribute) and t.attr == '_fmts' and isinstance(v, ast.Attribute) and v.attr == '_fmts':
+                o, q_ = self.obj_of(t.value, env), self.obj_of(v.value, env)
+                if o and q_:
+                    return '%slet %s : AStr := { %s with fmts := %s.fmts }\n%s' % (p, o, o, q_, K(env, ind))
             # O._s = <str>
             if isinstance(t, ast.Attribute) and t.attr == '_s':
                 o = self.obj_of(t.value, env)
@@ -571,6 +619,11 @@ class M:
                     return ('%s%s(Obj.modifyAt %s.fmts %s (fun q_ => { q_ with %s := Py.sliceAssign q_.%s %s %s %s })).bind fun f_ =>\n%slet %s : AStr := { %s with fmts := f_ }\n%s'
                             % (pre, p, d, key, fld, fld, lo, hi, new, p, d, d, K(env, ind)))
             raise Unsupported(ast.unparse(st))
+        if isinstance(st, ast.Delete) and all(isinstance(t_, ast.Name) for t_ in st.targets):
+            env = dict(env)
+            for t_ in st.targets:
+                env.pop(t_.id, None)           # `del name`: the name is gone, the value is unaffected
+            return K(env, ind)
         if isinstance(st, ast.Delete) and len(st.targets) == 1 and isinstance(st.targets[0], ast.Subscript) \
                 and not isinstance(st.targets[0].slice, ast.Slice) and self.is_fmts(st.targets[0].value, env):
             d = self.is_fmts(st.targets[0].value, env)
@@ -606,6 +659,13 @@ class M:
                 pre = self.pre(p)
                 return '%s%slet %s : Int := %s + %s\n%s' % (pre, p, mangle(t.id), mangle(t.id), a, K(env, ind))
             raise Unsupported(ast.unparse(st))
+        if isinstance(st, ast.AugAssign) and isinstance(st.op, (ast.Sub, ast.Add)) and isinstance(st.target, ast.Name) \
+                and env.get(st.target.id) == 'optint':
+            a = self.typed(st.value, env, 'int')
+            x_ = mangle(st.target.id)
+            v_ = self.hoist('Py.optGet %s' % x_)
+            pre = self.pre(p)
+            return '%s%slet %s : Option Int := some (%s %s %s)\n%s' % (pre, p, x_, v_, '-' if isinstance(st.op, ast.Sub) else '+', a, K(env, ind))
         if isinstance(st, ast.AugAssign) and isinstance(st.op, ast.Sub) and isinstance(st.target, ast.Name) and env.get(st.target.id) == 'int':
             a = self.typed(st.value, env, 'int')
             pre = self.pre(p)
@@ -666,7 +726,7 @@ class M:
         if isinstance(st, ast.For) and not st.orelse and isinstance(st.target, ast.Tuple):
             return self.general_loop(st, env, K, ind)
         if isinstance(st, ast.For) and not st.orelse and isinstance(st.target, ast.Name) \
-                and any(isinstance(n, ast.Continue) for n in ast.walk(ast.Module(body=st.body, type_ignores=[]))):
+                and any(isinstance(n, (ast.Continue, ast.Break)) for n in ast.walk(ast.Module(body=st.body, type_ignores=[]))):
             return self.general_loop(st, env, K, ind)
         if isinstance(st, ast.For) and not st.orelse and isinstance(st.target, ast.Name):
             it = st.iter
@@ -812,14 +872,23 @@ class M:
             n = self.typed(rng.args[0], env, 'int')
             src, elem = '(Py.%s %s)' % ('rangeDesc' if rev else 'rangeAsc', n), 'int'
             x = tgt.id
-        elif not rev:
-            src, elem = self.typed(it, env, 'slist'), 'setting'
-            x = tgt.id
         else:
-            raise Unsupported('loop ' + ast.unparse(it))
+            a_, ta_ = self.ex(rng, env)
+            if ta_ == 'str':
+                src, elem = ('(%s).reverse' % a_ if rev else a_), 'char'
+            elif ta_ == 'slist' and not rev:
+                src, elem = a_, 'setting'
+            elif ta_ == 'optslist' and not rev:
+                src, elem = self.typed(it, env, 'slist'), 'setting'
+            else:
+                raise Unsupported('loop ' + ast.unparse(it))
+            x = tgt.id
+        has_break = False
         for n_ in ast.walk(ast.Module(body=st.body, type_ignores=[])):
-            if isinstance(n_, (ast.Break, ast.Return)):
-                raise Unsupported('break/return in a loop')
+            if isinstance(n_, ast.Return):
+                raise Unsupported('return in a loop')
+            if isinstance(n_, ast.Break):
+                has_break = True
         if x is not None:
             if x in env:
                 raise Unsupported('loop variable shadows an outer variable')
@@ -831,6 +900,18 @@ class M:
         pre = self.pre(p)
         names = [mangle(v) for v in state]
         tys = [LEAN_T[env[v]] for v in state]
+        if has_break:
+            # `break`: a flag in the state; once set the remaining rounds do nothing
+            tup = lambda last: '(' + ', '.join(names + [last]) + ')'
+            q = '  ' * (ind + 2)
+            saved = getattr(self, 'loop_exits', None)
+            self.loop_exits = [(lambda e2, i2: '  ' * i2 + '.ok %s' % tup('false'), lambda e2, i2: '  ' * i2 + '.ok %s' % tup('true'))]
+            try:
+                body = self.block(st.body, benv, self.loop_exits[-1][0], ind + 2)
+            finally:
+                self.loop_exits = saved if saved is not None else []
+            return ('%s%s(List.foldlM (m := Except Exc) (fun (st_ : %s) (it_ : %s) =>\n%smatch st_, it_ with\n%s| %s, %s =>\n%sif done_ then .ok st_ else\n%s)\n%s  %s %s).bind fun st_ =>\n%smatch st_ with\n%s| %s =>\n%s'
+                    % (pre, p, ' × '.join(tys + ['Bool']), xty, q, q, tup('done_'), xpat, q, body, p, tup('false'), src, p, p, tup('_'), K(env, ind)))
         if isinstance(tgt, ast.Tuple) or any(isinstance(n_, ast.Continue) for n_ in ast.walk(ast.Module(body=st.body, type_ignores=[]))):
             # the general shape: state tuple (or single variable), destructured element, `continue` = the normal exit
             tup = names[0] if len(names) == 1 else '(' + ', '.join(names) + ')'
@@ -974,7 +1055,8 @@ class M:
         kk = lambda e2, i2: '  ' * i2 + '.ok %s' % tup
         a = self.block(st.body, dict(env), kk, ind + 1)
         b_ = self.block(st.orelse, dict(env), kk, ind + 1)
-        return '%s%s(if %s then\n%s\n%selse\n%s).bind fun %s =>\n%s' % (pre, p, c, a, p, b_, tup, K(env, ind))
+        tty = ' × '.join(LEAN_T[env[x]] for x in state)
+        return '%s%s((if %s then\n%s\n%selse\n%s) : Except Exc (%s)).bind fun %s =>\n%s' % (pre, p, c, a, p, b_, tty, tup, K(env, ind))
 
     def ret_self(self, env):
         if self.aliased:
@@ -998,8 +1080,22 @@ class M:
             e = given.get(n, d)
             if e is None:
                 raise Unsupported('missing argument %s' % n)
-            out.append(self.typed(e, env if n in given else {}, t))
+            if t in BASE_OF:
+                out.append(self.as_opt(e, env if n in given else {}, t))
+            else:
+                out.append(self.typed(e, env if n in given else {}, t))
         return out
+
+    def as_opt(self, e, env, t):
+        """an argument for an optional parameter: `None`, a value of the base type, or an optional variable"""
+        if isinstance(e, ast.Constant) and e.value is None:
+            return '(none : %s)' % LEAN_T[t]
+        a, ta = self.ex(e, env)
+        if ta == t:
+            return a
+        if ta == BASE_OF[t]:
+            return '(some %s)' % a
+        raise Unsupported('%s expected: %s' % (t, ast.unparse(e)))
 
     def lean(self, name, doc, after=None, entry=None, after_store=None):
         """whole method, or — `after`/`entry` given — the statements that follow the first top-level
@@ -1204,6 +1300,7 @@ def translate(fns, order, point_fns=None, iter_fns=None, with_assertions=False, 
                 out.append(m.lean(ln, doc, spec.get('after'), spec['entry'], spec.get('after_store')))
             else:
                 m = M(fn, dict(sigs))
+                m.join = bool(spec.get('join'))
                 out.append(m.lean(ln, doc))
                 sigs[nm] = m.sig
         except Exception as e:   # noqa
